@@ -272,6 +272,27 @@ func Plans() map[string]*Plan {
 				return probeAny(r, "lock-contention-listlock", "lock-contention-tablelock")
 			}}
 	}
+	// ---- C17
+	{
+		p := baseProfile()
+		p.W = map[string]int{OpAdd: 12, OpAutoCompact: 5, OpAddMulti: 1, OpCompactRange: 1, OpReopen: 1}
+		p.MinOps, p.MaxOps = 6, 40
+		p.HandlesPerTask = 2
+		p.AutoP = 0.7
+		p.RefsPerTxn = [2]int{1, 12}
+		p.ManyNames = 48
+		p.SmallBlocks = true
+		ps["C17"] = &Plan{Prop: "C17", Level: "exploration",
+			Parts: []Part{
+				{Name: "S-GROW", Quick: 400, Thorough: 6000, Gen: func(seed uint64) *RunSpec { return GenGrow("C17", seed, 1024) }},
+				{Name: "S-GROW/large", Quick: 16, Thorough: 1500, Gen: func(seed uint64) *RunSpec { return GenGrow("C17", seed, 4096) }},
+				turnPart("C17", "S-TURN/auto-compaction", 6000, 300000, p, RunOpts{}),
+			},
+			Rule: "S-GROW: single writer, N in [64,4096] transactions of identical table size (verified from the disk at each commit; payload shape and Config vary per run), depth <= 2*log2(N) after every Add and EntriesWritten <= N*log2(N)*entriesPerTxn at the end; every auto-compaction decision is compared with the size-class rule computed from file sizes on the simulated disk (skipped when whole-file and payload readings classify differently); S-TURN histories with auto-compaction for the valid-range/progress monitor. non-trivial = at least one auto-compaction committed or one decision judged; distinct = distinct workload shapes / event hashes",
+			Nontrivial: func(r *RunResult) bool {
+				return probeAny(r, "grow-judged-decisions", "c17-judged-decision", "auto-compaction-commit")
+			}}
+	}
 	return ps
 }
 
